@@ -130,6 +130,100 @@ def norm_filter(test, result_name):
     return U(R().visit(copy.deepcopy(test)))
 
 
+
+def _block_statements(body):
+    """statements of an arm in order, looking through with-blocks"""
+    for s in body:
+        yield s
+        if isinstance(s, (ast.With, ast.AsyncWith)):
+            yield from _block_statements(s.body)
+
+
+def loop_as_comprehension(loop: ast.For, result: str):
+    """``for x in E: [tmp = f(x);] [if cond:] result.append(v)``  →  equivalent list
+    comprehension ``[v' for x in E if cond']`` with loop-local temporaries substituted.
+    Returns None when the loop body has another shape."""
+    import copy
+
+    if not isinstance(loop.target, ast.Name) or loop.orelse:
+        return None
+    env = {}
+    body = list(loop.body)
+
+    class Sub(ast.NodeTransformer):
+        def visit_Name(self, n):
+            if isinstance(n.ctx, ast.Load) and n.id in env:
+                return copy.deepcopy(env[n.id])
+            return n
+
+    conds = []
+    while body:
+        s = body[0]
+        if isinstance(s, ast.Assign) and len(s.targets) == 1 and isinstance(s.targets[0], ast.Name) and s.targets[0].id != result:
+            env[s.targets[0].id] = Sub().visit(copy.deepcopy(s.value))
+            body = body[1:]
+            continue
+        if isinstance(s, ast.If) and not s.orelse and len(body) == 1:
+            conds.append(Sub().visit(copy.deepcopy(s.test)))
+            body = list(s.body)
+            continue
+        if isinstance(s, ast.If) and len(s.body) == 1 and isinstance(s.body[0], ast.Continue) and not s.orelse:
+            conds.append(ast.UnaryOp(op=ast.Not(), operand=Sub().visit(copy.deepcopy(s.test))))
+            body = body[1:]
+            continue
+        break
+    if len(body) != 1 or not isinstance(body[0], ast.Expr) or not isinstance(body[0].value, ast.Call):
+        return None
+    c = body[0].value
+    if not (isinstance(c.func, ast.Attribute) and c.func.attr == "append" and isinstance(c.func.value, ast.Name) and c.func.value.id == result and len(c.args) == 1):
+        return None
+    elt = Sub().visit(copy.deepcopy(c.args[0]))
+    comp = ast.ListComp(elt=elt, generators=[ast.comprehension(target=loop.target, iter=loop.iter, ifs=conds, is_async=0)])
+    return ast.copy_location(comp, loop)
+
+
+def arm_result(fv, arm_body, want_name=None, only=None):
+    """(result name, value expression, statement) for an arm: either a plain assignment or an
+    empty-list initialisation followed by an appending loop (returned as a comprehension).
+    Names that merely alias another expression of the arm are expanded."""
+    import copy
+
+    stmts = list(_block_statements(arm_body))
+    alias = {}
+    inits = {}
+    for s in stmts:
+        if isinstance(s, (ast.Assign, ast.AnnAssign)):
+            tg = s.targets[0] if isinstance(s, ast.Assign) else s.target
+            if isinstance(tg, ast.Name) and s.value is not None:
+                if isinstance(s.value, ast.List) and not s.value.elts:
+                    inits[tg.id] = s
+                else:
+                    alias[tg.id] = s
+        elif isinstance(s, ast.For):
+            for r in list(inits):
+                comp = loop_as_comprehension(s, r)
+                if comp is not None:
+                    alias[r] = ast.copy_location(ast.Assign(targets=[ast.Name(id=r, ctx=ast.Store())], value=comp, lineno=s.lineno), s)
+
+    def expand(e, depth=4):
+        class Sub(ast.NodeTransformer):
+            def visit_Name(self, n):
+                if isinstance(n.ctx, ast.Load) and n.id in alias and depth > 0 and n.id != want_name:
+                    v = alias[n.id].value
+                    if isinstance(v, (ast.Call, ast.GeneratorExp, ast.ListComp)) and (only is None or only(v)):
+                        return expand(copy.deepcopy(v), depth - 1)
+                return n
+
+        return Sub().visit(e)
+
+    out = []
+    for name, s in alias.items():
+        if want_name is not None and name != want_name:
+            continue
+        out.append((name, expand(copy.deepcopy(s.value)), s))
+    return out
+
+
 def analyse_serial(model, fv, value):
     """value: comprehension/generator/list(...) over ITER applying T. Returns
     (spec, iter_expr, filters) or None."""
@@ -161,6 +255,17 @@ def analyse_serial(model, fv, value):
     if call is None:
         if isinstance(elt, ast.Call):
             call = elt
+            # filters that repeat the applied call (loop temporaries substituted) refer to the result
+            txt = U(call)
+            import copy as _copy
+
+            class RepCall(ast.NodeTransformer):
+                def visit_Call(self, n):
+                    if U(n) == txt:
+                        return ast.Name(id="_", ctx=ast.Load())
+                    return self.generic_visit(n)
+
+            filters = [U(RepCall().visit(_copy.deepcopy(t))) if txt in U(t) else f for t, f in zip(ifs, filters)]
         else:
             return None
     else:
@@ -212,25 +317,26 @@ def analyse_parallel(ctx, model, fv, fi, arm_body, site):
         ctx.violate("PARMAP", site + ":ordered-map", (fi, mp), f"unexpected Executor.map arguments: {U(mp)}")
         return None
     ctx.hold("PARMAP", site + ":ordered-map", (fi, mp), "results come from Executor.map (yields in input order for every completion schedule)")
-    # consumption: list(map) or single-generator comprehension, no reordering wrapper between map and result variable
+    # consumption: list(map) / identity comprehension / appending loop over the map (possibly through a temporary)
     si = stmt_index(fv)
     stmt = si.statement(mp)
     consumer_ok, filters, res = False, [], None
-    if isinstance(stmt, ast.Assign) and len(stmt.targets) == 1 and isinstance(stmt.targets[0], ast.Name):
-        res = stmt.targets[0].id
-        v = stmt.value
-        if isinstance(v, ast.Call) and dotted(v.func) in ("list", "tuple") and len(v.args) == 1 and v.args[0] is mp:
-            consumer_ok = True
+    mp_txt = U(mp)
+    for name, v, st in arm_result(fv, arm_body, only=lambda val: mp_txt in U(val)):
+        if mp_txt not in U(v):
+            continue
+        if isinstance(v, ast.Call) and dotted(v.func) in ("list", "tuple") and len(v.args) == 1 and U(v.args[0]) == mp_txt:
+            consumer_ok, res, stmt = True, name, st
         else:
             cp = comp_parts(v) if isinstance(v, ast.ListComp) else None
-            if cp is not None and cp[2] is mp:
+            if cp is not None and U(cp[2]) == mp_txt:
                 elt, item, _, ifs = cp
                 if isinstance(elt, ast.Name) and elt.id == item:
-                    consumer_ok = True
+                    consumer_ok, res, stmt = True, name, st
                     filters = sorted(norm_filter(t, item) for t in ifs)
     if not consumer_ok:
         ctx.violate("PARMAP", site + ":consumed-in-order", (fi, stmt if stmt is not None else mp),
-                    f"the mapped results are not consumed in order by list(...) or an identity comprehension: {U(stmt)[:120] if stmt is not None else ''}")
+                    f"the mapped results are not consumed in order by list(...), an identity comprehension or an appending loop: {U(stmt)[:120] if stmt is not None else ''}")
         return None
     ctx.hold("PARMAP", site + ":consumed-in-order", (fi, stmt), "consumed by list()/identity comprehension without reordering")
     # callable
@@ -275,20 +381,15 @@ def check_split(ctx: Ctx, fi, ifnode):
         return
     pspec, piter, pfilters, mp, pres = par
     # serial: assignment to the same result variable
-    sassign = None
-    for s in serial_body:
-        for n in ast.walk(s):
-            if isinstance(n, (ast.Assign, ast.AnnAssign)):
-                tg = n.targets[0] if isinstance(n, ast.Assign) else n.target
-                if isinstance(tg, ast.Name) and tg.id == pres:
-                    sassign = n
-    if sassign is None:
+    sres = arm_result(fv, serial_body, want_name=pres, only=lambda val: isinstance(val, (ast.GeneratorExp, ast.ListComp)) or (isinstance(val, ast.Call) and dotted(val.func) in ("list", "tuple", "display_progress")))
+    if not sres:
         ctx.violate("PARMAP", site + ":same-result", (fi, ifnode), f"the serial branch does not assign the result variable `{pres}` that the parallel branch assigns")
         return
+    _, svalue, sassign = sres[-1]
     ctx.hold("PARMAP", site + ":same-result", (fi, sassign), f"both branches assign `{pres}`, consumed by the common tail")
-    ser = analyse_serial(model, fv, sassign.value)
+    ser = analyse_serial(model, fv, svalue)
     if ser is None:
-        ctx.undecided("PARMAP", site + ":same-callee", (fi, sassign), f"serial branch not recognised as a comprehension applying the callee per item: {U(sassign.value)[:100]}")
+        ctx.undecided("PARMAP", site + ":same-callee", (fi, sassign), f"serial branch not recognised as applying the callee per item: {U(svalue)[:100]}")
         return
     sspec, siter, sfilters = ser
     ctx.decide(sspec.key() == pspec.key(), "PARMAP", site + ":same-callee", (fi, mp),
